@@ -185,6 +185,12 @@ func (c *Encoder) encodeSubroutineDeclaration(sub *ast.SubroutineDeclaration) *F
 	if sub.ReturnType != nil {
 		w.Write(c.encodeIdent(sub.ReturnType).Encode())
 	}
+	// Parameters follow as (type, name) ident pairs, so an odd number of idents
+	// between the name and the block means that a return type is present.
+	for _, param := range sub.Parameters {
+		w.Write(c.encodeIdent(param.Type).Encode())
+		w.Write(c.encodeIdent(param.Name).Encode())
+	}
 	w.Write(c.encodeBlockStatement(sub.Block).Encode())
 
 	return &Frame{
